@@ -164,7 +164,7 @@ fn run(args: &Args, rep: &mut Report) {
     // exhaustive up to 3 codes over 0..=110
     let accs = rt::par(n, |w| {
         let mut acc = Acc::new();
-        let mut go = |s: &str, acc: &mut Acc| -> bool {
+        let go = |s: &str, acc: &mut Acc| -> bool {
             acc.eval();
             match rt::guarded(|| check(s, acc)) {
                 Ok(nt) => {
